@@ -105,6 +105,10 @@ type Ev struct {
 	// End
 	Ndeliv int `json:"ndeliv"`
 	Cbytes int `json:"cbytes"`
+	// End of a rejected round: what a stream that reported a failed handshake
+	// does when it is used anyway ("ok" = every call refused; else the first
+	// call that did not: nextframe, write, close, panic)
+	Probe string `json:"probe"`
 	// informational (not read by the monitor)
 	Rlen int    `json:"rlen"` // real length of the response incl. blank line
 	Ncut int    `json:"ncut"` // segment boundaries scripted
@@ -789,6 +793,51 @@ func (sc *scenario) poll(until func() bool, what string) error {
 	return nil
 }
 
+// probe uses a stream whose handshake failed: every call has to be refused
+// with an error (terminated, not half-open), without a panic.
+func (sc *scenario) probe(mode string) (res string) {
+	defer func() {
+		if r := recover(); r != nil {
+			res = "panic"
+		}
+	}()
+	res = "ok"
+	set := func(name string, err error) {
+		if err == nil && res == "ok" {
+			res = name
+		}
+	}
+	if mode == "sync" {
+		_, err := sc.ws.NextFrame()
+		set("nextframe", err)
+		set("write", sc.ws.Write([]byte("probe"), websocket.TypeText))
+		set("close", sc.ws.Close(websocket.CloseNormal, ""))
+		return
+	}
+	fired := 0
+	sc.ws.AsyncNextFrame(func(err error, _ websocket.Frame) { fired++; set("nextframe", err) })
+	sc.ws.AsyncWrite([]byte("probe"), websocket.TypeText, func(err error) { fired++; set("write", err) })
+	sc.ws.AsyncClose(websocket.CloseNormal, "", func(err error) { fired++; set("close", err) })
+	for k := 0; k < 50 && fired < 3 && sc.cbPanic == ""; k++ {
+		func() {
+			defer func() {
+				if r := recover(); r != nil {
+					sc.cbPanic = fmt.Sprint(r)
+				}
+			}()
+			_ = sc.ioc.RunOneFor(2 * time.Millisecond)
+		}()
+	}
+	if sc.cbPanic != "" {
+		sc.cbPanic = ""
+		return "panic"
+	}
+	if fired < 3 && res == "ok" {
+		res = "pending" // a call neither refused nor completed
+	}
+	return
+}
+
 type got struct {
 	op      byte
 	payload []byte
@@ -928,6 +977,9 @@ func (sc *scenario) round(rn int, rd Round) error {
 			end.Err, end.Note = "panic", panicked
 		}
 	}
+	if herr != nil && panicked == "" {
+		end.Probe = sc.probe(p.Mode)
+	}
 	end.Ndeliv = len(msgs)
 	end.State = sc.ws.State().String()
 	end.Pending = sc.ws.Pending()
@@ -1006,7 +1058,7 @@ func (sc *scenario) compare(rn int, rd Round, evs []Ev) {
 		case "Msg":
 			return fmt.Sprint("Msg ", e.N, e.Match)
 		case "End":
-			return fmt.Sprint("End ", e.Ndeliv, e.Cbytes > 0, e.State)
+			return fmt.Sprint("End ", e.Ndeliv, e.Cbytes > 0, e.State, e.Probe)
 		}
 		return e.Ev
 	}
